@@ -861,6 +861,27 @@ func (w *panelWorld) deadlocked() (bool, string) {
 	return true, strings.Join(blk, "+")
 }
 
+// confirmDeadlock reads the goroutine dump twice, 3 ms apart: every blocked goroutine must sit in the same
+// Lock/RLock call of the bookkeeping code both times.
+func (w *panelWorld) confirmDeadlock() ([]string, bool) {
+	d1 := panelDump()
+	time.Sleep(3 * time.Millisecond)
+	w.drainEvents()
+	d2 := panelDump()
+	var ev []string
+	for _, p := range w.procs {
+		if p == nil || p.st != "blk" {
+			continue
+		}
+		g1, g2 := d1[p.goid], d2[p.goid]
+		if g1.lock == "" || g1.lock != g2.lock || g1.fn != g2.fn {
+			return nil, false
+		}
+		ev = append(ev, fmt.Sprintf("goroutine %d (%s), first dump:\n%s", p.id, p.op.K, g1.text), fmt.Sprintf("goroutine %d (%s), second dump (+3 ms):\n%s", p.id, p.op.K, g2.text))
+	}
+	return ev, len(ev) > 0
+}
+
 // ------------------------------------------------------------------------------------------ observation
 
 func (w *panelWorld) observe(nproc int) panelObs {
@@ -1042,10 +1063,12 @@ func (w *panelWorld) predicates(got *panelObs, exp *panelObs, prev *panelObs, ag
 		return "unexplained"
 	}
 	// ---- C17 deadlock
-	if dead, cyc := w.deadlocked(); dead && (exp == nil || !exp.Dead) {
-		v = append(v, panelVerdict{Key: "deadlock:" + cyc,
-			What: "bookkeeping goroutines are blocked on each other's locks (" + cyc + "): each was found in Lock/RLock in two goroutine dumps in a row while every other goroutine had returned",
-			Ev:   append([]string(nil), w.dumps...)})
+	if dead, cyc := w.deadlocked(); dead {
+		if ev, ok := w.confirmDeadlock(); ok {
+			v = append(v, panelVerdict{Key: "deadlock:" + cyc,
+				What: "bookkeeping goroutines are blocked on each other's locks (" + cyc + "): all of them were found in Lock/RLock of the panel code in two goroutine dumps in a row while every other goroutine had returned or was not inside an operation",
+				Ev:   ev})
+		}
 	}
 	// ---- C17 Owned / TerminatedHasNone at quiescent moments
 	unownedWhy := ""
@@ -1164,6 +1187,7 @@ func (w *panelWorld) predicates(got *panelObs, exp *panelObs, prev *panelObs, ag
 
 type panelOutcome struct {
 	Verdicts []panelVerdict
+	Refuted  string // hypo mode: where the code stopped following the deviant model
 	Diverged string
 	Table    []string
 	Steps    int
@@ -1230,7 +1254,11 @@ func panelRun(env *panelEnv, b *panelBehaviour) (out panelOutcome) {
 		}
 		w.procs[i] = p
 	}
-	strict := b.Cfg.Mode != "probe"
+	// strict: the model is the code's, a mismatch is drift. hypo: the model carries a deviation the code may or may
+	// not have; while the code follows it the model explains what is seen, once it stops following only the
+	// schedule is used. probe: schedule only.
+	strict := b.Cfg.Mode == "strict"
+	hypo := b.Cfg.Mode == "hypo"
 	seen := map[string]bool{}
 	add := func(vs []panelVerdict) {
 		for _, v := range vs {
@@ -1265,20 +1293,29 @@ func panelRun(env *panelEnv, b *panelBehaviour) (out panelOutcome) {
 					out.Diverged = fmt.Sprintf("step %d: goroutine %d should be parked, it is %s", i+1, p.id, p.st)
 					return
 				}
+				agreed = false
 			}
 		case "traffic":
+			var err error
 			if st.Ev.O > len(w.objs) {
-				out.Diverged = fmt.Sprintf("step %d: traffic on session %d which does not exist", i+1, st.Ev.O)
-				return
+				err = fmt.Errorf("no such session")
+			} else {
+				err = w.unitTraffic(w.objs[st.Ev.O-1], st.Ev.D)
 			}
-			if err := w.unitTraffic(w.objs[st.Ev.O-1], st.Ev.D); err != nil {
-				out.Diverged = fmt.Sprintf("step %d: traffic on session %d: %v", i+1, st.Ev.O, err)
-				return
+			if err != nil {
+				if strict {
+					out.Diverged = fmt.Sprintf("step %d: traffic on session %d: %v", i+1, st.Ev.O, err)
+					return
+				}
+				agreed = false
 			}
 		default:
 			if err := w.admin(st.Ev.A, st.Ev.U); err != nil {
-				out.Diverged = fmt.Sprintf("step %d: %v", i+1, err)
-				return
+				if strict {
+					out.Diverged = fmt.Sprintf("step %d: %v", i+1, err)
+					return
+				}
+				agreed = false
 			}
 		}
 		if err := w.settle(ran); err != nil {
@@ -1295,15 +1332,19 @@ func panelRun(env *panelEnv, b *panelBehaviour) (out panelOutcome) {
 		}
 		var exp *panelObs
 		var diffs []string
-		if strict {
+		if strict || (hypo && agreed) {
 			exp = &st.Obs
 			diffs = w.compare(exp, &got)
 			agreed = agreed && len(diffs) == 0
+			if hypo && !agreed {
+				out.Refuted = fmt.Sprintf("step %d (%s): %s", i+1, panelEvString(st.Ev), strings.Join(diffs, "; "))
+				exp = nil
+			}
 		}
 		w.logf("%2d %-22s st=%s act=%v obj=%s%s", i+1, panelEvString(st.Ev), panelStString(got.St), got.Act, panelObjString(got.Obj),
 			map[bool]string{true: "", false: "   MODEL: " + strings.Join(diffs, "; ")}[len(diffs) == 0])
 		add(w.predicates(&got, exp, &prev, agreed))
-		if len(diffs) > 0 && out.Diverged == "" {
+		if strict && len(diffs) > 0 && out.Diverged == "" {
 			out.Diverged = fmt.Sprintf("step %d (%s): %s", i+1, panelEvString(st.Ev), strings.Join(diffs, "; "))
 		}
 		if out.Diverged != "" && strict {
@@ -1316,7 +1357,7 @@ func panelRun(env *panelEnv, b *panelBehaviour) (out panelOutcome) {
 	got := w.observe(len(b.Prog))
 	w.logf("   %-22s st=%s act=%v obj=%s", "(all released)", panelStString(got.St), got.Act, panelObjString(got.Obj))
 	var exp *panelObs
-	if strict && out.Diverged == "" && len(b.Steps) > 0 {
+	if (strict || hypo) && agreed && out.Diverged == "" && len(b.Steps) > 0 {
 		exp = &b.Steps[len(b.Steps)-1].Obs
 	}
 	add(w.predicates(&got, exp, nil, agreed && exp != nil))
@@ -1447,7 +1488,12 @@ func TestVerifPanelReplay(t *testing.T) {
 				res.Violate(v.Key, v.What, map[string]any{"behaviour": b, "table": out.Table, "evidence": v.Ev})
 			}
 		}
-		if out.Diverged != "" && b.Cfg.Mode != "probe" {
+		if out.Refuted != "" {
+			res.Stat("hypothesis_refuted:"+b.Cfg.Name, 1)
+		} else if b.Cfg.Mode == "hypo" {
+			res.Stat("hypothesis_followed:"+b.Cfg.Name, 1)
+		}
+		if out.Diverged != "" && b.Cfg.Mode == "strict" {
 			diverged++
 			res.Stat("diverged", 1)
 			res.Note("behaviour %d (%s) diverged: %s", idx, b.Cfg.Name, out.Diverged)
@@ -1489,5 +1535,5 @@ func panelReplayFile(t *testing.T, env *panelEnv, path string) {
 		keys = append(keys, v.Key)
 		fmt.Printf("VERDICT %s: %s\n", v.Key, v.What)
 	}
-	fmt.Printf("REPLAY-RESULT keys=%q diverged=%q\n", keys, out.Diverged)
+	fmt.Printf("REPLAY-RESULT keys=%q diverged=%q refuted=%q\n", keys, out.Diverged, out.Refuted)
 }
